@@ -68,6 +68,13 @@ CHECKS = {
         note="Trusts vf/snapshot.py:mutable_ids / Snapshot (raw storage walk); identity transforms on mutable values are excluded as the property's own quantifier does.",
         ref="DESIGN.md section 4, C02",
     ),
+    "C07": dict(
+        level="exploration",
+        technique="differential property testing over a class-definition grammar: each Hypothesis-generated world is built frozen and as a non-frozen twin and driven through the same history in lock-step; frozen instances are snapshotted forever",
+        text="Hypothesis generates class worlds with frozen=True on the main class, on its spec parent (inherited through spec and plain subclasses) or on the nested child class, plus histories of up to 12 operations; every frozen instance ever created must keep its identity snapshot, in-place operations must raise FrozenInstanceError whenever the twin would change (or raise), and copy-on-write operations must return a distinct instance with exactly the twin's resulting state or exception class. Sampled search.",
+        note="Frozen-ness is decided from the descriptor (what was declared), not from library metadata; in-place attempts are tried on a deepcopy of the twin; init=False attributes are excluded (see DESIGN.md corrections log).",
+        ref="DESIGN.md section 4, C07",
+    ),
 }
 
 NOT_YET = "check not built yet in this revision (see DESIGN.md section 9 for the order); nothing is claimed"
